@@ -222,8 +222,10 @@ func c09(e *Env) {
 			}
 		}
 		e.namesReaders(v, ls)
+		// "holds" is meant for as long as the object is used: the fields a decoder stored must have no other writer
+		e.writeOwnership(v, ls)
 	}
-	e.keepRules("group-emptiness", "struct-layout", "wiring", "arm-writes", "arm-value", "arm-parser", "order-independence", "constructor-default", "constructor-fresh", "names-readers", "version-recorded", "duplicate-mark", "level-names", "decode-one", "delegation-first", "parse", "code-table")
+	e.keepRules("write-ownership", "group-emptiness", "struct-layout", "wiring", "arm-writes", "arm-value", "arm-parser", "order-independence", "constructor-default", "constructor-fresh", "names-readers", "version-recorded", "duplicate-mark", "level-names", "decode-one", "delegation-first", "parse", "code-table")
 	c.Floor("wiring", 36)
 	c.Floor("constructor-default", 36)
 	c.Floor("version-recorded", 3)
@@ -577,7 +579,7 @@ func c12(e *Env) {
 	e.boundsRules()
 	e.noExplicitFailure()
 	e.keepRules("group-emptiness", "promoted-methods", "struct-layout", "bounds", "constructor-fresh", "constructor-default", "nil-receiver", "nil-receiver-decode", "no-explicit-failure", "result-exclusive", "validity-coverage", "score-gate", "encode-error", "encode-nil", "valid-chain", "token-shape", "decode-one", "decoder-analysis", "decode-skeleton")
-	c.Floor("bounds", 20)
+	c.Floor("bounds", 8)
 	c.Floor("nil-receiver", 40)
 	c.Floor("result-exclusive", 30)
 	c.Floor("validity-coverage", 36)
